@@ -48,7 +48,9 @@ type c05Combo struct {
 }
 
 type c05Matrix struct {
-	Whole   bool // matrix: ${{ }}
+	ObjExpr string // matrix: ${{ <context object> }}: needs-outputs | needs | inputs | vars | fromjson
+	ObjJob  int    // needs-outputs: the job whose outputs object is used
+	Whole   bool   // matrix: ${{ }}
 	Rows    []c05Row
 	HasInc  bool
 	IncExpr bool // include: ${{ }}
@@ -109,6 +111,9 @@ func c05Eq(a, b string) bool { return strings.EqualFold(a, b) }
 // segment that is not in scope (for c05Out) and the reason (for c05Never).
 func (s c05Scope) Resolve(root string, segs []string, job, at int) (c05Verdict, int, string) {
 	m := s.m
+	if len(segs) == 0 && (root == "needs" || root == "inputs" || root == "vars") {
+		return c05In, 0, "" // the context object itself
+	}
 	switch root {
 	case "steps":
 		if job < 0 || len(segs) == 0 {
@@ -151,6 +156,9 @@ func (s c05Scope) Resolve(root string, segs []string, job, at int) (c05Verdict, 
 		if len(segs) == 1 || (len(segs) == 2 && c05Eq(segs[1], "result")) {
 			return c05In, 0, ""
 		}
+		if len(segs) == 2 && c05Eq(segs[1], "outputs") {
+			return c05In, 0, "" // the outputs object of a directly needed job
+		}
 		if len(segs) == 3 && c05Eq(segs[1], "outputs") {
 			// ... and their declared outputs
 			if m.Jobs[tgt].Call {
@@ -166,6 +174,15 @@ func (s c05Scope) Resolve(root string, segs []string, job, at int) (c05Verdict, 
 		return c05Skip, 0, ""
 	case "matrix":
 		if job < 0 || len(segs) == 0 || len(segs) > 2 {
+			return c05Skip, 0, ""
+		}
+		if mx := m.Jobs[job].Matrix; mx != nil && mx.ObjExpr != "" {
+			// The matrix is one expression evaluating to a context object whose names are known
+			// statically. A name the object declares is not reported under every reading; for the
+			// other names the two sentences of the statement conflict (not compared).
+			if len(segs) == 1 && c05Has(s.objectMatrixKeys(mx, job), segs[0]) {
+				return c05Never, 0, "matrix-expr"
+			}
 			return c05Skip, 0, ""
 		}
 		return s.matrix(m.Jobs[job].Matrix, segs)
@@ -221,6 +238,51 @@ func (s c05Scope) Resolve(root string, segs []string, job, at int) (c05Verdict, 
 		return c05Out, 0, ""
 	}
 	return c05Skip, 0, ""
+}
+
+// objectMatrixKeys: the names declared by the context object a matrix expression evaluates to
+// (without include / exclude, which are matrix directives there).
+func (s c05Scope) objectMatrixKeys(mx *c05Matrix, job int) []string {
+	m := s.m
+	var names []string
+	switch mx.ObjExpr {
+	case "needs-outputs":
+		direct := false
+		for _, d := range m.Jobs[job].Needs {
+			if d == mx.ObjJob {
+				direct = true
+			}
+		}
+		if direct && !m.Jobs[mx.ObjJob].Call {
+			names = m.Jobs[mx.ObjJob].Outputs
+		}
+	case "needs":
+		for _, d := range m.Jobs[job].Needs {
+			names = append(names, m.Jobs[d].ID)
+		}
+	case "inputs":
+		if m.Call {
+			for _, i := range m.CallInputs {
+				names = append(names, i.Name)
+			}
+		}
+		if m.Dispatch {
+			for _, i := range m.DispatchInputs {
+				names = append(names, i.Name)
+			}
+		}
+	case "vars":
+		names = []string{"any_name", "OTHER"}
+	case "fromjson":
+		names = []string{"os", "extra"}
+	}
+	var out []string
+	for _, n := range names {
+		if !c05Eq(n, "include") && !c05Eq(n, "exclude") {
+			out = append(out, n)
+		}
+	}
+	return out
 }
 
 // matrix sees exactly the row keys plus the include keys; a nested property of a mapping-valued key
@@ -541,6 +603,9 @@ func c05Check(c *Case, prof string) {
 		}
 		c.SetAdd("observed", rf.Class+":"+dir)
 		c.SetAdd("observed_sub", rf.Class+":"+rf.Sub+":"+rf.Verdict)
+		if strings.HasPrefix(rf.Sub, "matrix-source") || rf.Class == "matrix-object-expr" || rf.Sub == "object-key" {
+			c.SetAdd("matrix_object_expression", rf.Class+":"+rf.Sub+":"+rf.Verdict)
+		}
 		c.SetAdd("positions", rf.Where)
 		c.SetAdd("styles", rf.Style)
 		// operand-position coverage: operator path from the root of the expression to the reference
@@ -603,10 +668,10 @@ func c05Check(c *Case, prof string) {
 }
 
 func runC05(r *Run) {
-	r.Rule = "seeded workflow models (1-6 jobs incl. reusable-workflow-call jobs, random needs DAG, declared outputs, 1-6 steps with ids at random places, matrices with rows/include/exclude/nested mapping values, workflow_call and/or workflow_dispatch inputs, secrets, outputs; matrix / row / include / include element / value / step id given by ${{ }}) rendered to YAML with keys in random order, names in random letter case, dotted and index syntax, plain/quoted/block scalars; each reference sits at one operand position of a random operator/function tree of depth 0-5 (!, &&, ||, the six comparisons, parentheses, format/toJSON/fromJSON/contains/startsWith/endsWith arguments, index) whose other leaves are context-free literals, with floors over every operand position, every nested pair of logical positions, nesting levels 1-4 and the type-narrowing shapes (X && a || b, !(X || y) || z, ...); one reference per scalar and one reference-bearing scalar per line, at ~47 kinds of positions where the context is available. A scope model written from the statement decides per reference whether a `property ... is not defined in object type` diagnostic must exist on the line of its scalar. quick 1000 workflows (~3.4e4 references), thorough 20000. Non-trivial = distinct workflow containing at least one reference that must be reported and one that must not."
+	r.Rule = "seeded workflow models (1-6 jobs incl. reusable-workflow-call jobs, random needs DAG, declared outputs, 1-6 steps with ids at random places, matrices with rows/include/exclude/nested mapping values, workflow_call and/or workflow_dispatch inputs, secrets, outputs; matrix / row / include / include element / value / step id given by ${{ }}) rendered to YAML with keys in random order, names in random letter case, dotted and index syntax, plain/quoted/block scalars; each reference sits at one operand position of a random operator/function tree of depth 0-5 (!, &&, ||, the six comparisons, parentheses, format/toJSON/fromJSON/contains/startsWith/endsWith arguments, index) whose other leaves are context-free literals, with floors over every operand position, every nested pair of logical positions, nesting levels 1-4 and the type-narrowing shapes (X && a || b, !(X || y) || z, ...); one reference per scalar and one reference-bearing scalar per line, at ~47 kinds of positions where the context is available. A scope model written from the statement decides per reference whether a `property ... is not defined in object type` diagnostic must exist on the line of its scalar. A dedicated family gives one job `matrix: ${{ needs.<job>.outputs | needs | inputs | vars | fromJSON(const) }}` whose object declares include, exclude, both or neither, and references every declared name (and the undeclared include/exclude) from that job, from the other jobs seeing the same entity and from the workflow level. quick 1200 workflows (~4.5e4 references), thorough 23000. Non-trivial = distinct workflow containing at least one reference that must be reported and one that must not."
 	r.Assume("the generated workflows produce no diagnostics other than `property ... is not defined in object type` (any other diagnostic is reported as a violation of the harness domain)")
 	r.Assume("comparison is per reference = per scalar (line of the scalar); the exact column is C07's, letter case of names C08's")
-	r.Assume("excluded (statement silent): properties of scalar/mixed matrix rows, nested properties not declared literally when include is an expression, outputs of reusable-workflow-call jobs, input default values, constant fromJSON('...') sections, ACTIONS_STEP_DEBUG/ACTIONS_RUNNER_DEBUG")
+	r.Assume("excluded (statement silent): matrix.<name> for names a statically known matrix expression (context object, constant fromJSON) does not declare, properties of scalar/mixed matrix rows, nested properties not declared literally when include is an expression, outputs of reusable-workflow-call jobs, input default values, constant fromJSON('...') sections, ACTIONS_STEP_DEBUG/ACTIONS_RUNNER_DEBUG")
 
 	mk := func(name string, q, t int) *Family {
 		return &Family{Name: name, N: r.Q(q, t), Do: func(c *Case) { c05Check(c, name) }}
@@ -617,6 +682,7 @@ func runC05(r *Run) {
 		mk("needs", 150, 3000),
 		mk("matrix", 150, 3000),
 		mk("events", 150, 3000),
+		mk("matobj", 200, 3000),
 	}
 	r.RunFamilies(fams)
 	if r.ReplayOf != nil {
@@ -658,12 +724,46 @@ func runC05(r *Run) {
 			}
 		}
 	}
+	for _, need := range c05MatrixObjectFloors {
+		if !r.SetHas("matrix_object_expression", need) {
+			r.Inconclusive("coverage floor: matrix given by a context object: never observed: " + need)
+		}
+	}
 	for _, need := range c05SubFloors {
 		if !r.SetHas("observed_sub", need) {
 			r.Inconclusive("coverage floor: reference sub-class never observed: " + need)
 		}
 	}
 }
+
+// `matrix: ${{ <context object> }}`: every name the object declares stays in scope for the job
+// itself, for the other jobs that see the same entity and (inputs) for the workflow level; include
+// and exclude are reported when the object does not declare them.
+var c05MatrixObjectFloors = func() []string {
+	var out []string
+	add := func(class, place, kind string, names []string, dir string) {
+		for _, n := range names {
+			out = append(out, class+":"+place+"["+kind+"]/"+n+":"+dir)
+		}
+	}
+	in := []string{"include", "exclude", "exclude-without-include", "other"}
+	un := []string{"include", "exclude-without-include"}
+	for _, place := range []string{"matrix-source", "matrix-source-other-job"} {
+		add("needs-output", place, "needs-outputs", in, "in")
+		add("needs-output", place, "needs-outputs", un, "out")
+	}
+	for _, place := range []string{"matrix-source", "matrix-source-other-job", "matrix-source-workflow"} {
+		add("inputs", place, "inputs", in, "in")
+		add("inputs", place, "inputs", un, "out")
+	}
+	add("needs-job", "matrix-source", "needs", []string{"include", "exclude-without-include", "other"}, "in")
+	add("needs-job", "matrix-source", "needs", un, "out")
+	for _, k := range []string{"needs-outputs", "needs", "inputs", "vars"} {
+		out = append(out, "matrix-object-expr:"+k+":in")
+	}
+	out = append(out, "matrix-key:object-key:never:matrix-expr")
+	return out
+}()
 
 // sub-classes the mutation classes of the design depend on
 var c05SubFloors = []string{
